@@ -197,7 +197,7 @@ class SpawnProcess(multiprocessing.context.SpawnProcess):
             result = self._result_and_error_.recv()
             error = self._result_and_error_.recv()
 
-        except EOFError as exc:
+        except (EOFError, OSError) as exc:  # OSError: it died while sending, 'got end of file during message'
             # the process has been terminated by calling ``self.terminate()``
             terminated = True
             while self.exitcode is None:
